@@ -118,7 +118,12 @@ class SizeConstraint(Constraint):
             raise error
         yield WarningEvent(error=error)
 
-        yield from consume_bytes(self.size_max - self.size_already)
+        # the padding of this region is also part of the enclosing regions
+        padding = self.size_max - self.size_already
+        for constraint in all_size_constraints:
+            if constraint is not self and not constraint.is_obsolete:
+                constraint.size_already += padding
+        yield from consume_bytes(padding)
 
     def __repr__(self):
         return f"{type(self).__name__}({self.constraint_path}: {self.size_already}/{self.size_max})"
